@@ -35,6 +35,14 @@ NonEmptyOk(bs)         == \A b \in 1..Len(bs) : Len(bs[b]) >= 1
 BytesOk(in, unit, bs)  == \A b \in 1..Len(bs) : Bytes(bs[b]) < unit * in.maxbytes
 CountOk(in, bs)        == \A b \in 1..Len(bs) : Len(bs[b]) <= in.maxcount
 
+\* what the client then SENDS (Batch._submit_job_group_bunches, then _submit_job_bunches, over the bunches): pg = the keys of the job
+\* groups posted, in posting order (job groups are posted one request after the other); pj = the keys of the jobs posted (job bunches
+\* are posted concurrently: any order).  Every job group once and in order, every job exactly once.
+PostedOk(in, out) ==
+  /\ out.pg = [i \in 1..Len(in.groups) |-> i]
+  /\ Len(out.pj) = Len(in.jobs)
+  /\ \A j \in 1..Len(in.jobs) : \E n \in 1..Len(out.pj) : out.pj[n] = j
+
 Why(in, unit, out) ==
   IF out.o = "raise" THEN (IF Oversize(in) THEN "ok" ELSE "refused-packable-input")
   ELSE IF out.o # "bunches" THEN "bad-result"
@@ -42,6 +50,7 @@ Why(in, unit, out) ==
   ELSE IF ~NonEmptyOk(out.bunches) THEN "empty-bunch"
   ELSE IF ~BytesOk(in, unit, out.bunches) THEN "byte-limit"
   ELSE IF ~CountOk(in, out.bunches) THEN "count-limit"
+  ELSE IF "pg" \in DOMAIN out /\ ~PostedOk(in, out) THEN "posted"
   ELSE "ok"
 Ok(in, unit, out) == Why(in, unit, out) = "ok"
 
